@@ -29,7 +29,7 @@ def base_corpus(ctx, n_gen):
     for k in range(n_gen):
         progs["gen_%d_%d" % (ctx.seed, k)] = Gen(ctx.seed * 9000011 + k).program()
     for k in range(n_gen // 3):
-        progs["genmap_%d_%d" % (ctx.seed, k)] = Gen(ctx.seed * 9000011 + 500000 + k, features={"maps": True}).program()
+        progs["genmap_%d_%d" % (ctx.seed, k)] = Gen(ctx.seed * 9000011 + 500000 + k, features={"maps": True, "fnvals": k % 2 == 1}).program()
     # the specification's own example of static scoping (8.1) and a return inside a match arm
     progs["spec_8_1_static_scope"] = Program([
         Func("g", [], "int", [Ret(V("x"))]),
